@@ -228,6 +228,23 @@ func (c *Chain) Admin(msg sdk.Msg) (res *sdk.Result, err error) {
 	return res, err
 }
 
+// AdminEv applies a governance-authority message between blocks and records it as an "Admin" observation.
+func (c *Chain) AdminEv(ev *Event, msg sdk.Msg) error {
+	if len(c.pending) > 0 {
+		c.NextBlock(5) // governance acts between blocks: first execute what is queued
+	}
+	_, err := c.Admin(msg)
+	ev.OK = err == nil
+	if err != nil {
+		ev.Log = truncate(err.Error(), 300)
+		ev.Code = 1
+	}
+	if c.Rec != nil && !c.NoObs {
+		c.Rec.Line("Admin", c.Height, c.Time.Unix(), -1, ev, c.Project(c.ReadCtx()))
+	}
+	return err
+}
+
 // Queue adds a transaction to the next block.
 func (c *Chain) Queue(tx TxSpec) { c.pending = append(c.pending, tx) }
 
@@ -264,7 +281,18 @@ func (c *Chain) NextBlock(dt int64) (outs []txOutcome) {
 		if !ok {
 			seq = acc.GetSequence()
 		}
-		seqs[s.Signer] = seq + 1
+		// a message rejected by ValidateBasic never reaches the ante handler: the signer's sequence does not advance
+		basicOK := true
+		for _, m := range s.Msgs {
+			if vb, ok := m.(sdk.HasValidateBasic); ok && vb.ValidateBasic() != nil {
+				basicOK = false
+			}
+		}
+		if basicOK {
+			seqs[s.Signer] = seq + 1
+		} else {
+			seqs[s.Signer] = seq
+		}
 		tx, err := simtestutil.GenSignedMockTx(c.Rand, c.App.TxConfig(), s.Msgs, s.Fee, 50_000_000, "",
 			[]uint64{acc.GetAccountNumber()}, []uint64{seq}, c.Keys[s.Signer])
 		if err != nil {
@@ -363,6 +391,7 @@ type Event struct {
 	Args   map[string]any `json:"args"`
 	Resp   map[string]any `json:"resp"`
 	Abci   []map[string]string `json:"abci"`
+	Stage  string              `json:"stage"` // for failed transactions: "ante" (rejected before its messages ran) or "msgs"
 }
 
 func newEvent(name, sender string) *Event {
@@ -402,11 +431,21 @@ func (c *Chain) emitBlock(specs []TxSpec, res *abci.ResponseFinalizeBlock, hash 
 	var last map[string]any
 	emitTx := func(i int, st map[string]any) {
 		r := res.TxResults[i]
+		observed := false
+		for _, o := range c.obs {
+			if (o.Kind == "Tx" || o.Kind == "Ante") && o.Tx == i { // ante passed: the messages ran (a panic in them skips the post handler)
+				observed = true
+			}
+		}
 		ev := specs[i].Ev
 		if ev == nil {
 			ev = newEvent("tx", specs[i].Signer)
 		}
 		ev.OK = r.Code == 0
+		ev.Stage = "msgs"
+		if !observed {
+			ev.Stage = "ante"
+		}
 		ev.Code = int(r.Code)
 		ev.Log = truncate(r.Log, 300)
 		ev.Abci = c.abciEvents(r.Events)
